@@ -9,7 +9,7 @@
 From Coq Require Import QArith Reals List.
 From Coquelicot Require Import Coquelicot.
 Import ListNotations.
-From TT Require Import Num NumR Tree M_transform M_height P_transform P_height P_height_jac P_height_inv P_det_def P_tridet P_transform_det P_height_det.
+From TT Require Import Num NumR Tree M_transform M_height P_transform P_height P_height_jac P_height_inv P_det_def P_tridet P_transform_det P_height_det G_transforms P_transform_gen.
 Open Scope R_scope.
 
 (* ---- inverse after forward returns the input ---- *)
@@ -141,6 +141,29 @@ Theorem C07_ratio_report_is_logabsdet_indexed : forall times tr x i l r,
   = ln (Rabs (ldet NumR (length (ipre (INode i l r))) (ratio_jacobian (leaves tr) times x (INode i l r)))).
 Proof. exact ratio_logdet_is_logabsdet_indexed. Qed.
 Print Assumptions C07_ratio_report_is_logabsdet_indexed.
+(* The SOURCE is the model: the bodies of _call / _inverse / log_abs_det_jacobian of CumSumTransform,
+   CumSumExpTransform, SoftPlusTransform, CumSumSoftPlusTransform and LogTransform, regenerated from
+   torchtree/distributions/transforms.py on every run (translator T10 -> gen/G_transforms.v), are the model's
+   forward / inverse / report, so that every theorem above about these five transforms is a theorem about what
+   the source says now.  (LogTransform writes its report in terms of y: stated at y = forward x.) *)
+Theorem C07_transform_source_is_model :
+  (forall x, g_CumSumTransform_call NumR x = cumsum_fwd NumR x) /\
+  (forall y, g_CumSumTransform_inverse NumR y = cumsum_inv NumR y) /\
+  (forall x y, g_CumSumTransform_ldj NumR x y = cumsum_logdet NumR x) /\
+  (forall x, g_CumSumExpTransform_call NumR x = cumsumexp_fwd NumR x) /\
+  (forall y, g_CumSumExpTransform_inverse NumR y = cumsumexp_inv NumR y) /\
+  (forall x y, g_CumSumExpTransform_ldj NumR x y = cumsumexp_logdet NumR x) /\
+  (forall x, g_SoftPlusTransform_call NumR x = softplus_fwd NumR x) /\
+  (forall y, g_SoftPlusTransform_inverse NumR y = softplus_inv_l NumR y) /\
+  (forall x y, g_SoftPlusTransform_ldj NumR x y = softplus_logdet NumR x) /\
+  (forall x, g_CumSumSoftPlusTransform_call NumR x = cumsumsoftplus_fwd NumR x) /\
+  (forall y, g_CumSumSoftPlusTransform_inverse NumR y = cumsumsoftplus_inv NumR y) /\
+  (forall x y, g_CumSumSoftPlusTransform_ldj NumR x y = cumsumsoftplus_logdet NumR x) /\
+  (forall x, g_LogTransform_call NumR x = log_fwd NumR x) /\
+  (forall y, g_LogTransform_inverse NumR y = log_inv NumR y) /\
+  (forall x, g_LogTransform_ldj NumR x (g_LogTransform_call NumR x) = log_logdet NumR x).
+Proof. exact transforms_source_is_model. Qed.
+Print Assumptions C07_transform_source_is_model.
 Example C07_ratio_det_example := ratio_det_example.
 
 (* non-vacuity *)
